@@ -16,6 +16,7 @@
 #include "varintDict.h"
 #include "varintElias.h"
 #include "varintFOR.h"
+#include "varintFloat.h"
 #include "varintGroup.h"
 #include "varintPFOR.h"
 #include "varintRLE.h"
@@ -950,6 +951,50 @@ static void codec_bp128(const uint64_t *vals, size_t n) {
     free(s32);
 }
 
+/* ------------------------------------------------------------------ float (C03 bound, C16 consumed = produced) */
+static void codec_float(const uint64_t *vals, size_t n) {
+    if (n > 4097) {
+        return;
+    }
+    /* the corpus values reinterpreted as IEEE doubles: NaNs, infinities, subnormals, zeros and normals of
+     * every magnitude appear */
+    double *in = (double *)in_vals(vals, n);
+    static const char *PNAME[4] = {"FULL", "HIGH", "MEDIUM", "LOW"};
+    for (int prec = 0; prec < 4; prec++) {
+        for (int mode = 0; mode < 3; mode++) {
+            size_t bound = varintFloatMaxEncodedSize(n, (varintFloatPrecision)prec);
+            uint8_t *dst = enc_dst(bound, 20 * n + 64);
+            size_t wrote = 0;
+            char what[48];
+            snprintf(what, sizeof what, "encode %s mode %d", PNAME[prec], mode);
+            if (!LIBCALL("float.Encode", what, wrote = varintFloatEncode(dst, in, n, (varintFloatPrecision)prec, (varintFloatEncodingMode)mode))) {
+                continue;
+            }
+            check_bound("float.Encode", wrote, bound, 0);
+            if (wrote == 0) {
+                AFAIL("float.Encode", "roundtrip_mismatch", "%s: %s returned 0", cur_desc, what);
+                continue;
+            }
+            if (M16) {
+                uint8_t *enc = exact_copy(dst, wrote);
+                double *out = (double *)vh_gb_get(G_OUT, n * 8, 0xAB);
+                size_t used = 0;
+                if (LIBCALL("float.Decode", what, used = varintFloatDecode(enc, n, out))) {
+                    if (used != wrote) {
+                        AFAIL("float.Decode", "metadata_untrue", "%s: %s: encoder produced %zu bytes, decoder consumed %zu", cur_desc, what, wrote, used);
+                    }
+                    if (prec == 0 && memcmp(out, vals, n * 8)) {
+                        AFAIL("float.Decode", "roundtrip_mismatch", "%s: FULL precision mode %d not bit-exact", cur_desc, mode);
+                    }
+                }
+            }
+            char ck[64];
+            snprintf(ck, sizeof ck, "float/%s/mode%d", PNAME[prec], mode);
+            vh_class(ck, "%s", cur_desc);
+        }
+    }
+}
+
 /* ------------------------------------------------------------------ adaptive */
 static const char *ENCNAME[8] = {"DELTA", "FOR", "PFOR", "DICT", "BITMAP", "TAGGED", "GROUP", "?"};
 
@@ -1176,6 +1221,9 @@ static void run_array(const uint64_t *v, size_t n) {
     codec_bp128(v, n);
     if (M03 || M13 || M16) {
         codec_adaptive(v, n, M03);
+    }
+    if (M03 || M16) {
+        codec_float(v, n);
     }
 }
 
